@@ -30,7 +30,7 @@ Section C02.
   (* reported authentic exactly when the reference MIC (given 32-bit counter, frame's own direction) matches *)
   Theorem C02_mic_iff : forall bs key n, 9 <= length bs ->
     (validate_mic mac bs key n = true <-> wire_mic bs = spec_mic mac bs key n).
-  Proof. exact (validate_mic_iff enc dec mac enc_len mac_len). Qed.
+  Proof. exact (validate_mic_iff mac). Qed.
 
   (* parsing any built frame returns the description it was built from *)
   Theorem C02_roundtrip : forall d nwk appk f,
